@@ -6,7 +6,7 @@ cd /verif
 ids=${@:-$(ls refactors | grep -E '^R[0-9]+-[0-9]+$')}
 bad=0
 # documented fail-closed limits (refactors/INDEX.md, DESIGN.md §9): the checks raise an alarm on these although behaviour is preserved
-limits=" R13-4 R18-5 R24-4 R24-5 R27-5 R28-1 R28-4 R29-3 R29-5 "
+limits=" R13-4 R18-5 R24-4 R24-5 R27-5 R28-1 R28-4 R29-3 R29-5 R34-1 R35-4 "
 for id in $ids; do
   out=$(./devtools/try_refactor.sh /verif/refactors/$id/patch.diff 2>&1)
   if echo "$out" | grep -q "^silent"; then echo "$id silent"
